@@ -57,3 +57,48 @@ Proof.
           let b := eval vm_compute in (DAYS_IN_YEAR m) in
           change (DAYS_IN_YEAR_LEAP m) with a; change (DAYS_IN_YEAR m) with b end; lia.
 Qed.
+
+(* ---- month tables ---- *)
+Lemma year_months_spec md y : year_months md y = months md y.
+Proof.
+  unfold year_months, months, DAYS_IN_MONTHS_LEAP, DAYS_IN_MONTHS.
+  rewrite get_is_leap_year_spec; reflexivity.
+Qed.
+
+Lemma get_days_in_month_spec md y m : 1 <= m <= 12 -> get_days_in_month md m y = mlen md y m.
+Proof.
+  intros _. unfold get_days_in_month, znth, mlen. rewrite year_months_spec; reflexivity.
+Qed.
+
+(* case split of a bounded integer into its literal values *)
+Ltac cases12 m :=
+  let H := fresh in
+  assert (H : m = 1 \/ m = 2 \/ m = 3 \/ m = 4 \/ m = 5 \/ m = 6 \/ m = 7 \/ m = 8 \/
+              m = 9 \/ m = 10 \/ m = 11 \/ m = 12) by lia;
+  repeat (destruct H as [H | H]; [subst m | ]); [..| subst m].
+
+Lemma mode_lengths y :
+  (forall m, 1 <= m <= 12 -> mlen D360 y m = 30) /\ ylen D360 y = 360 /\
+  ylen D365 y = 365 /\ ylen D366 y = 366 /\ mlen D365 y 2 = 28 /\ mlen D366 y 2 = 29 /\
+  ylen G y = (if is_leap y then 366 else 365) /\ mlen G y 2 = (if is_leap y then 29 else 28).
+Proof.
+  split.
+  - intros m Hm. unfold mlen, months. cases12 m; destruct (is_leap y); reflexivity.
+  - unfold mlen, months. repeat split; destruct (is_leap y); reflexivity.
+Qed.
+
+Lemma year_is_sum_of_months md y :
+  ylen md y = cum md y 12 /\
+  (forall k, 0 <= k < 12 -> cum md y (k + 1) = cum md y k + mlen md y (k + 1)) /\
+  cum md y 0 = 0.
+Proof.
+  split; [|split].
+  - destruct md; cbn [ylen cum]; destruct (is_leap y); reflexivity.
+  - intros k Hk.
+    assert (H : k = 0 \/ k = 1 \/ k = 2 \/ k = 3 \/ k = 4 \/ k = 5 \/ k = 6 \/ k = 7 \/
+                k = 8 \/ k = 9 \/ k = 10 \/ k = 11) by lia.
+    unfold mlen, months.
+    repeat (destruct H as [H | H]; [subst k | ]); [..| subst k];
+      destruct md; cbn [cum]; destruct (is_leap y); reflexivity.
+  - destruct md; cbn [cum]; destruct (is_leap y); reflexivity.
+Qed.
